@@ -253,7 +253,20 @@ func rangesOverSection(c *Ctx, id *ir.Expr, section string) bool {
 		return true
 	})
 	if src == nil {
-		return false
+		// fully resolved origin (the queue read was inlined): the store accesses it names
+		secs := map[string]bool{}
+		id.Walk(func(x *ir.Expr) bool {
+			switch {
+			case x.Op == "state":
+				secs[x.Name] = true
+			case x.Op == "call" && (strings.HasSuffix(x.Name, "types.KVStorePrefixIterator") || strings.HasSuffix(x.Name, "types.KVStoreReversePrefixIterator")) && len(x.Args) == 2:
+				secs[w.SectionOfKey(x.Args[1])] = true
+			case x.Op == "call" && strings.HasSuffix(x.Name, "prefix.NewStore") && len(x.Args) == 2:
+				secs[w.SectionOfKey(x.Args[1])] = true
+			}
+			return true
+		})
+		return len(secs) == 1 && secs[section]
 	}
 	reach := w.Reachable([]*ssa.Function{src.Callee})
 	found := false
